@@ -1,7 +1,7 @@
 (* wire ops 400-499: module merge.
    request 400: (((name text)...) schema) ; result (0 model) | (1 (err...)) | (3 why)
    err = (0 file_index) | (1 msg file line_start line_end col_start col_end) *)
-From Verif Require Import Base.Str Base.Sx Base.Outcome Model.Ast Model.LineNumbers Model.Merge Model.WireModel.
+From Verif Require Import Base.Str Base.Sx Base.Outcome Model.Ast Model.LineNumbers Model.Merge Model.WireModel Spec.MergeSpec.
 
 Definition un_mfile (x : sx) : option mfile :=
   match x with
@@ -34,5 +34,8 @@ Definition dispatch_merge (op : N) (args : list sx) : option sx :=
                 end)
       | _, _ => None
       end
+  | 401, [fs] =>
+      (* the SPECIFICATION of Spec/MergeSpec.v on the files: (well-formed? conflict-free?) *)
+      option_map (fun fs => SL [sx_bool (wf_modulesb fs); sx_bool (conflict_freeb fs)]) (un_listof un_mfile fs)
   | _, _ => None
   end.
